@@ -23,6 +23,9 @@ type c13StaticInner struct {
 	Wait   time.Duration       `dials:"wait"`
 	Labels map[string]string   `dials:"labels"`
 	Tags   map[string]struct{} `dials:"tags" json:"jsonTags"`
+	// an exported field whose Go name starts with an upper-case letter
+	// outside ASCII (the key is given by the tag, as for every field)
+	Ürl string `dials:"url"`
 }
 
 // Embedded (anonymous) members of the static type. With their dials tags
@@ -63,6 +66,11 @@ type c13Static struct {
 	C13Quota   `dials:"c13quota"`
 	*C13Pool   `dials:"c13Pool"`
 	C13Backoff `dials:"back_off"`
+	// exported fields whose Go names start with an upper-case letter outside
+	// ASCII: a leaf, a duration, a pointer to a struct
+	Ärger   string        `dials:"aerger"`
+	Öffnung time.Duration `dials:"oeffnung"`
+	Éclair  *C13Backoff   `dials:"eclair"`
 }
 
 func (c *c13Run) configStatic(fm c13Fmt, doc string) (*c13Static, *dials.Dials[c13Static], error) {
@@ -117,9 +125,10 @@ var c13FixedDocs = [4]string{
 	`{"listen_addr":"0.0.0.0:8080","maxConn":250,"ratio":0.75,"debug":true,"timeout":"1m30s",
  "started":"2021-03-04T05:06:07.5+01:00","peer":"192.168.1.7","pair":"left|right","hosts":["a.example","b.example"],
  "ports":[80,443],"limits":{"rps":1000,"burst":-5},"seen":["x","y","x"],
- "inner":{"depth":3,"wait":2500000000,"labels":{"env":"prod"},"jsonTags":["t1"]},"opt":{"depth":-1},
- "items":[{"depth":1,"wait":"1s"},{"labels":{"k":"v"}}],
- "c13quota":{"max_conns":64,"burst":"250ms"},"c13Pool":{"size":8,"names":["p1","p2"]},"back_off":{"factor":1.5}}`,
+ "inner":{"depth":3,"wait":2500000000,"labels":{"env":"prod"},"jsonTags":["t1"],"url":"http://in"},"opt":{"depth":-1},
+ "items":[{"depth":1,"wait":"1s","url":"http://one"},{"labels":{"k":"v"}}],
+ "c13quota":{"max_conns":64,"burst":"250ms"},"c13Pool":{"size":8,"names":["p1","p2"]},"back_off":{"factor":1.5},
+ "aerger":"viel","oeffnung":3000000000,"eclair":{"factor":0.25}}`,
 	`listen_addr: "0.0.0.0:8080"
 max_conn: 250
 ratio: 0.75
@@ -143,11 +152,13 @@ inner:
     env: prod
   tags:
     - t1
+  url: http://in
 opt:
   yaml_depth: -1
 items:
   - yaml_depth: 1
     wait: 1s
+    url: http://one
   - labels:
       k: v
 c13quota:
@@ -158,6 +169,10 @@ c13Pool:
   names: [p1, p2]
 back_off:
   factor: 1.5
+aerger: viel
+oeffnung: 3s
+eclair:
+  factor: 0.25
 `,
 	`listen_addr = "0.0.0.0:8080"
 max_conn = 250
@@ -170,6 +185,8 @@ pair = "left|right"
 hosts = ["a.example", "b.example"]
 ports = [80, 443]
 seen = ["x", "y", "x"]
+aerger = "viel"
+oeffnung = "3s"
 
 [limits]
 rps = 1000
@@ -179,6 +196,7 @@ burst = -5
 depth = 3
 wait = "2.5s"
 tags = ["t1"]
+url = "http://in"
 [inner.labels]
 env = "prod"
 
@@ -188,6 +206,7 @@ depth = -1
 [[items]]
 depth = 1
 wait = "1s"
+url = "http://one"
 [[items]]
 [items.labels]
 k = "v"
@@ -202,6 +221,9 @@ names = ["p1", "p2"]
 
 [back_off]
 factor = 1.5
+
+[eclair]
+factor = 0.25
 `,
 	`listen_addr: "0.0.0.0:8080"
 maxConn: 250
@@ -220,12 +242,16 @@ inner: {
 	wait: 2500000000
 	labels: env: "prod"
 	jsonTags: ["t1"]
+	url: "http://in"
 }
 opt: depth: -1
-items: [{depth: 1, wait: "1s"}, {labels: k: "v"}]
+items: [{depth: 1, wait: "1s", url: "http://one"}, {labels: k: "v"}]
 c13quota: {max_conns: 64, burst: "250ms"}
 c13Pool: {size: 8, names: ["p1", "p2"]}
 back_off: factor: 1.5
+aerger: "viel"
+oeffnung: "3s"
+eclair: factor: 0.25
 `,
 }
 
@@ -238,17 +264,19 @@ func c13FixedStatic(w *fw.Worker, idx int) {
 		Hosts: []string{"a.example", "b.example"}, Ports: []uint16{80, 443},
 		Limits: map[string]int64{"rps": 1000, "burst": -5}, Seen: map[string]struct{}{"x": {}, "y": {}},
 		Ignored:  42,
-		Inner:    c13StaticInner{Depth: 3, Wait: 2500 * time.Millisecond, Labels: map[string]string{"env": "prod"}, Tags: map[string]struct{}{"t1": {}}},
+		Inner:    c13StaticInner{Depth: 3, Wait: 2500 * time.Millisecond, Labels: map[string]string{"env": "prod"}, Tags: map[string]struct{}{"t1": {}}, Ürl: "http://in"},
 		Opt:      &c13StaticInner{Depth: -1},
-		Items:    []c13StaticInner{{Depth: 1, Wait: time.Second}, {Labels: map[string]string{"k": "v"}}},
+		Items:    []c13StaticInner{{Depth: 1, Wait: time.Second, Ürl: "http://one"}, {Labels: map[string]string{"k": "v"}}},
 		C13Quota: C13Quota{MaxConns: 64, Burst: 250 * time.Millisecond}, C13Pool: &C13Pool{Size: 8, Names: []string{"p1", "p2"}},
 		C13Backoff: C13Backoff{Factor: 1.5},
+		Ärger:      "viel", Öffnung: 3 * time.Second, Éclair: &C13Backoff{Factor: 0.25},
 	}
 	for fm := c13JSON; fm <= c13Cue; fm++ {
 		name := c13FmtNames[fm]
 		dflt := &c13Static{ListenAddr: ":80", MaxConn: 10, Ratio: 0.5, Timeout: 5 * time.Second, Hosts: []string{"default"},
 			Limits: map[string]int64{"rps": 1}, Ignored: 42, Inner: c13StaticInner{Depth: 9, Wait: time.Second, Labels: map[string]string{"a": "b"}},
-			C13Quota: C13Quota{MaxConns: 1, Burst: time.Second}, C13Backoff: C13Backoff{Factor: 2}}
+			C13Quota: C13Quota{MaxConns: 1, Burst: time.Second}, C13Backoff: C13Backoff{Factor: 2},
+			Ärger: "default-aerger", Öffnung: time.Minute}
 		d, err := dials.Config(context.Background(), dflt, &static.StringSource{Data: c13FixedDocs[fm], Decoder: c13NewDecoder(fm, true)})
 		w.Count("fixed_corpus_documents", 1)
 		if err != nil {
